@@ -18,6 +18,7 @@ type sp struct {
 	st   *State
 	env  map[string]Val
 	src  string
+	ante string
 }
 
 type specErr struct{ msg string }
@@ -103,13 +104,18 @@ func (p *sp) iff() Val {
 	for p.peek() == "<==>" {
 		p.next()
 		b := p.imp()
+		p.ante = ""
 		a = boolV(fmt.Sprintf("(= %s %s)", a.T, b.T))
 	}
 	return a
 }
 func (p *sp) imp() Val {
+	start := p.i
 	a := p.cond()
 	if p.peek() == "==>" {
+		if start == 0 {
+			p.ante = a.T // antecedent of a clause that is an implication at top level
+		}
 		p.next()
 		b := p.imp()
 		return boolV(fmt.Sprintf("(=> %s %s)", a.T, b.T))
@@ -572,6 +578,13 @@ func (p *sp) primary() Val {
 }
 
 func (g *Gen) spec(st *State, src string, env map[string]Val) string {
+	t, _ := g.specAnte(st, src, env)
+	return t
+}
+
+// specAnte also returns the antecedent when the clause has the form A ==> B ("" otherwise); the
+// vacuity covers ask that A is satisfiable at some return.
+func (g *Gen) specAnte(st *State, src string, env map[string]Val) (string, string) {
 	p := &sp{toks: lex(src), g: g, st: st, env: env, src: src}
 	v := p.iff()
 	if p.i != len(p.toks) {
@@ -580,5 +593,5 @@ func (g *Gen) spec(st *State, src string, env map[string]Val) string {
 	if v.Kind != "bool" {
 		panic(specErr{fmt.Sprintf("spec: %q is not boolean", src)})
 	}
-	return v.T
+	return v.T, p.ante
 }
